@@ -256,7 +256,14 @@ class OpenRecord(FnSpec):
     def setup(self, cx):
         paths = SSeq.fresh(STR, "paths")
         kw = {"allow_baseless": SBool(z3.Bool("allow_baseless")), "reopen_incomplete_patch": SBool(z3.Bool("reopen_incomplete_patch"))}
-        return A(cls=SClass("IH5Record"), paths=paths, __kwargs__=kw, kw=kw)
+        if cx.choose(2) == 1:
+            # called without the keywords (as IH5MFRecord._open and direct callers do): the defaults are 'no baseless record' and
+            # 'an uncommitted newest container stays READ-ONLY' — merely looking at an interrupted patch must never make it committable
+            given = {}
+            kw = {"allow_baseless": SBool(z3.BoolVal(False)), "reopen_incomplete_patch": SBool(z3.BoolVal(False))}
+        else:
+            given = kw
+        return A(cls=SClass("IH5Record"), paths=paths, __kwargs__=given, kw=kw)
 
     def all_ok(self, cx, a):
         i = z3.Int(fresh_name("pi"))
